@@ -151,8 +151,11 @@ def shrink(text, still_fails, max_tries=40):
         changed = False
         for k in range(len(lines)):
             t = lines[k].split()
-            if not t or t[0] in ("site", "symm", "iom", "beta"):
+            if not t or t[0] in ("symm", "iom", "beta"):
                 continue
+            if t[0] == "site" and (any(t[1] in l.split()[1:] for l in lines if l.split() and l.split()[0] not in ("site", "iom", "symm", "beta"))
+                                   or any(l.startswith("iom") for l in lines) or sum(l.startswith("site") for l in lines) < 2):
+                continue                  # a site is only dropped when nothing refers to it (iom lines refer to indices: keep all sites then)
             cand = lines[:k] + lines[k + 1:]
             tries += 1
             try:
